@@ -172,6 +172,19 @@ func runC09(res *result) {
 					plan.Ops = append(plan.Ops, drvOp{Op: "call", Call: &pre})
 					exps = append(exps, exp{&pre, fmt.Sprintf("rpc echo, response headers preset on the caller's FContext, headers=%v cid=%q timeout=%dms %s/%s", hm, cid, to, tr, pr)})
 				}
+				if n%3 == 0 && tr != "tcp" {
+					// the handler sets its response headers and then fails (undeclared error, application
+					// exception): the caller gets an error, and still every response header
+					for fi, fk := range []string{"error", "appexc"} {
+						if !thorough && (n/3+fi)%2 != 0 {
+							continue
+						}
+						bad := *rpc
+						bad.Outcome = &outcomeSpec{Kind: fk, AppType: 6, RespHdr: respHdr}
+						plan.Ops = append(plan.Ops, drvOp{Op: "call", Call: &bad})
+						exps = append(exps, exp{&bad, fmt.Sprintf("rpc echo, handler fails (%s) after setting response headers, headers=%v cid=%q timeout=%dms %s/%s", fk, hm, cid, to, tr, pr)})
+					}
+				}
 				if n%4 == 0 {
 					ow := &callSpec{Kind: "rpc", Service: "Svc", Method: "Fire", WireMethod: "fire", Args: []*idl.V{iv(1)}, ArgTypes: []*idl.RT{i32}, Oneway: true,
 						Transport: transports[n%2], Proto: pr, Headers: hm, Cid: cid, TimeoutMs: to, Outcome: &outcomeSpec{Kind: "return"}}
@@ -208,7 +221,17 @@ func runC09(res *result) {
 		fail := func(kind, msg string) {
 			res.fail(finding{Key: "C09/" + kind + "/" + cs.Kind, IDL: u.texts, Atom: desc, Msg: desc + ": " + msg})
 		}
-		if rr.Panic != "" || cr.Err != "" || cr.ErrKind != "" {
+		failing := cs.Outcome != nil && (cs.Outcome.Kind == "error" || cs.Outcome.Kind == "appexc")
+		if failing {
+			if rr.Panic != "" || cr.Err != "" {
+				fail("call-failed", rr.Panic+cr.Err)
+				continue
+			}
+			if cr.ErrKind == "" {
+				fail("handler-failure-not-reported", "the handler failed and the caller got no error")
+				continue
+			}
+		} else if rr.Panic != "" || cr.Err != "" || cr.ErrKind != "" {
 			fail("call-failed", rr.Panic+cr.Err+cr.ErrKind+" "+cr.ErrMsg)
 			continue
 		}
@@ -259,6 +282,9 @@ func runC09(res *result) {
 			if cr.RespHeaders[k] != v {
 				fail("response-header-lost", fmt.Sprintf("handler set %q=%q, caller sees %q", k, v, cr.RespHeaders[k]))
 			}
+		}
+		if cr.RespHeaders["_cid"] != cr.CallerCid {
+			fail("response-cid", fmt.Sprintf("after the call the caller's FContext carries response _cid %q, the request had %q", cr.RespHeaders["_cid"], cr.CallerCid))
 		}
 		if cs.Transport != "tcp" {
 			if len(cr.ReplyFrames) != 1 {
